@@ -142,6 +142,26 @@ func genTimeline(t *rapid.T) TLCase {
 	// "requery": a query immediately followed by a burst of failures (the shape that re-bans an address whose
 	// expired record has just been seen by IsBanned)
 	ops := []string{"fail", "fail", "fail", "fail", "fail", "fail", "query", "query", "query", "query", "requery", "requery", "success", "ban", "unban"}
+	if c.Cfg.M >= 2 && rapid.IntRange(0, 2).Draw(t, "straddle") == 0 {
+		// directed: failures that straddle the age of the FIRST failure. One early failure, more at 0.65 W, more at
+		// 1.18 W: the first has left the window, the middle ones have not, so the last burst reaches the threshold only
+		// together with them (reference = sliding window over every failure, not a window restarted with the first).
+		t2, t3 := 130, 235
+		if c.Cfg.M >= 3 && rapid.Bool().Draw(t, "noEarlierBan") {
+			// below the threshold until the last burst
+			c.Steps = append(c.Steps, TLStep{Op: "fail", AtMs: 0, N: 1}, TLStep{Op: "fail", AtMs: t2, N: c.Cfg.M - 2},
+				TLStep{Op: "fail", AtMs: t3, N: 2}, TLStep{Op: "query", AtMs: t3 + 10})
+			T = t3 + 10
+		} else {
+			// the middle burst bans (until t2+150); the late failure must extend the ban (until t3+150)
+			c.Steps = append(c.Steps, TLStep{Op: "fail", AtMs: 0, N: 1}, TLStep{Op: "fail", AtMs: t2, N: c.Cfg.M - 1},
+				TLStep{Op: "fail", AtMs: t3, N: 1}, TLStep{Op: "query", AtMs: 332})
+			T = 332
+		}
+		for _, f := range []int{0, t2, t3} {
+			bounds[0] = append(bounds[0], f+c.Cfg.WMs, f+c.Cfg.BanMs)
+		}
+	}
 	for i := 0; i < n && T < 1100; i++ {
 		s := TLStep{Op: rapid.SampledFrom(ops).Draw(t, "op")}
 		if rapid.IntRange(0, 9).Draw(t, "ipSel") < 8 {
